@@ -9,6 +9,9 @@
      d_pm    Root /PageMode name            (pkg/api/pageMode.go,   model/document.go)
      d_vp    Root /ViewerPreferences dict   (pkg/api/viewerPreferences.go, model/document.go, xreftable.go)
      d_att   EmbeddedFiles name tree, as the sorted map it refines (C39)  (model/attach.go)
+     d_xmp   catalog /Metadata XMP packet: its <pdf:Keywords> text  (validate/metaData.go
+             populateKeywordList, keyword.go removeKeywordsFromMetadata, model/metadata.go)
+     d_hasinfo  the trailer has an Info dictionary (KeywordsRemove gives up without one)
 
    Text strings (keywords, property values) are lists of Unicode code points; the text
    codec (EscapedUTF16String / StringLiteral -> text) is the identity here, that is C13.
@@ -285,6 +288,10 @@ Fixpoint uniq_id (fuel : nat) (id : str) (m : atts) : str :=
   end.
 
 (* ---------------------------------------------------------------- document *)
+(* catalog XMP: None = no /Metadata; Some None = a packet without <pdf:Keywords>;
+   Some (Some t) = a packet whose <pdf:Keywords> element has the (XML-decoded) text t *)
+Definition xmpst := option (option str).
+
 Record doc := Doc {
   d_ver : N;
   d_kw : option str;
@@ -292,17 +299,23 @@ Record doc := Doc {
   d_pl : option str;
   d_pm : option str;
   d_vp : option vprefs;
-  d_att : atts
+  d_att : atts;
+  d_xmp : xmpst;
+  d_hasinfo : bool
 }.
 
-Definition empty_doc (ver : N) : doc := Doc ver None [] None None None [].
+Definition empty_doc (ver : N) : doc := Doc ver None [] None None None [] None false.
+(* a starting document with an Info dictionary (possibly with /Keywords) and catalog XMP *)
+Definition init_doc (ver : N) (hasinfo : bool) (kw : option str) (x : xmpst) : doc :=
+  Doc ver (if hasinfo then kw else None) [] None None None [] x hasinfo.
 
-Definition set_kw d x := Doc (d_ver d) x (d_info d) (d_pl d) (d_pm d) (d_vp d) (d_att d).
-Definition set_info d x := Doc (d_ver d) (d_kw d) x (d_pl d) (d_pm d) (d_vp d) (d_att d).
-Definition set_pl d x := Doc (d_ver d) (d_kw d) (d_info d) x (d_pm d) (d_vp d) (d_att d).
-Definition set_pm d x := Doc (d_ver d) (d_kw d) (d_info d) (d_pl d) x (d_vp d) (d_att d).
-Definition set_vp d x := Doc (d_ver d) (d_kw d) (d_info d) (d_pl d) (d_pm d) x (d_att d).
-Definition set_att d x := Doc (d_ver d) (d_kw d) (d_info d) (d_pl d) (d_pm d) (d_vp d) x.
+Definition set_kw d x := Doc (d_ver d) x (d_info d) (d_pl d) (d_pm d) (d_vp d) (d_att d) (d_xmp d) (d_hasinfo d).
+Definition set_info d x := Doc (d_ver d) (d_kw d) x (d_pl d) (d_pm d) (d_vp d) (d_att d) (d_xmp d) (d_hasinfo d).
+Definition set_pl d x := Doc (d_ver d) (d_kw d) (d_info d) x (d_pm d) (d_vp d) (d_att d) (d_xmp d) (d_hasinfo d).
+Definition set_pm d x := Doc (d_ver d) (d_kw d) (d_info d) (d_pl d) x (d_vp d) (d_att d) (d_xmp d) (d_hasinfo d).
+Definition set_vp d x := Doc (d_ver d) (d_kw d) (d_info d) (d_pl d) (d_pm d) x (d_att d) (d_xmp d) (d_hasinfo d).
+Definition set_att d x := Doc (d_ver d) (d_kw d) (d_info d) (d_pl d) (d_pm d) (d_vp d) x (d_xmp d) (d_hasinfo d).
+Definition set_xmp d x := Doc (d_ver d) (d_kw d) (d_info d) (d_pl d) (d_pm d) (d_vp d) (d_att d) x (d_hasinfo d).
 
 (* ReadAndValidate succeeds *)
 Definition readable (d : doc) : bool :=
@@ -311,10 +324,25 @@ Definition readable (d : doc) : bool :=
 (* api.Write followed by the next read; write.go writes the header %PDF-1.7 for every
    document that is not PDF 2.0 and drops a Root /Version *)
 Definition persist (d : doc) : doc :=
-  Doc (if d_ver d =? 20 then 20 else 17) (d_kw d) (persist_info (d_info d)) (d_pl d) (d_pm d) (d_vp d) (d_att d).
+  Doc (if d_ver d =? 20 then 20 else 17) (d_kw d) (persist_info (d_info d)) (d_pl d) (d_pm d) (d_vp d) (d_att d)
+      (d_xmp d) true.   (* write.go ensureInfoDictAndFileID: every written document has an Info dictionary *)
 
-Definition kw_read (d : doc) : list str :=
-  match d_kw d with None => [] | Some s => kw_of_text s end.
+(* validate/xReftable.go validateRootObject: the Root entry Metadata (sinceVersion 1.4) is
+   skipped for older documents; validateRootMetadata -> populateKeywordList otherwise *)
+Definition xmp_text3 (ver : N) (x : xmpst) : str :=
+  if ver <? 14 then [] else match x with Some (Some t) => t | _ => [] end.
+
+(* KeywordList after reading: the Info /Keywords fields and the XMP pdf:Keywords fields,
+   each trimmed, in one map *)
+Definition kw_read3 (ver : N) (kw : option str) (x : xmpst) : list str :=
+  fold_left (fun acc f => set_ins (trim f) acc) (fields (xmp_text3 ver x))
+            (match kw with None => [] | Some s => kw_of_text s end).
+Definition kw_read (d : doc) : list str := kw_read3 (d_ver d) (d_kw d) (d_xmp d).
+
+(* keyword.go removeKeywordsFromMetadata (model/metadata.go removeKeywords cuts the
+   Keywords element out of the packet): new state, and whether the packet changed *)
+Definition xmp_scrub (x : xmpst) : xmpst * bool :=
+  match x with Some (Some _) => (Some None, true) | _ => (x, false) end.
 
 Inductive op :=
 | KAdd (ks : list str)
@@ -340,23 +368,31 @@ Definition step (d : doc) (o : op) : doc * bool :=
   | KAdd ks =>          (* api.AddKeywords, pdfcpu.KeywordsAdd, finalizeKeywords *)
     if negb (no_blank ks) then fail d else
     let cur := fold_left (fun acc k => set_ins (trim k) acc) ks (kw_read d) in
-    done (set_kw d (Some (join cur)))
+    done (set_xmp (set_kw d (Some (join cur))) (fst (xmp_scrub (d_xmp d))))
   | KRemove [] =>       (* pdfcpu.KeywordsRemove, len(keywords) == 0 *)
-    match d_kw d with None => fail d | Some _ => done (set_kw d None) end
+    if negb (d_hasinfo d) then fail d else
+    let removed := (match d_kw d with Some _ => true | None => false end)
+                   || snd (xmp_scrub (d_xmp d))
+                   || (match kw_read d with [] => false | _ => true end) in
+    if removed then done (set_xmp (set_kw d None) (fst (xmp_scrub (d_xmp d)))) else fail d
   | KRemove ks =>
     if negb (no_blank ks) then fail d else
+    if negb (d_hasinfo d) then fail d else
     let rs := map trim ks in
     let cur := kw_read d in
     if existsb (fun k => smem k rs) cur
-    then done (set_kw d (Some (join (filter (fun k => negb (smem k rs)) cur))))
+    then done (set_xmp (set_kw d (Some (join (filter (fun k => negb (smem k rs)) cur))))
+                       (fst (xmp_scrub (d_xmp d))))   (* finalizeKeywords scrubs the XMP keywords *)
     else fail d
   | PAdd kvs =>         (* api.AddProperties, pdfcpu.PropertiesAdd *)
     if negb (padd_valid kvs) then fail d else
     done (set_info d (fold_left (fun m kv => m_set (fst kv) (snd kv) m) kvs (d_info d)))
   | PRemove [] =>       (* pdfcpu.removeAllProperties: delete(d, k) for k in ctx.Properties *)
-    match props_read (d_info d) with
-    | [] => fail d
-    | ps => done (set_info d (fold_left (fun m kv => m_del (fst kv) m) ps (d_info d)))
+    (* ... and drops the catalog /Metadata ("removes all properties and catalog XMP metadata") *)
+    let ps := props_read (d_info d) in
+    match ps, d_xmp d with
+    | [], None => fail d
+    | _, _ => done (set_xmp (set_info d (fold_left (fun m kv => m_del (fst kv) m) ps (d_info d))) None)
     end
   | PRemove ks =>       (* pdfcpu.PropertiesRemove *)
     if negb (prem_valid ks) then fail d else
@@ -485,3 +521,4 @@ Fixpoint fresh_adds (h : list op) (s : store) : bool :=
 (* ------------------------------------------------ wire helpers for the glue *)
 Definition run_from_empty (ver : N) (h : list op) : doc := run (empty_doc ver) h.
 Definition last_ok_from_empty (ver : N) (h : list op) : bool := last_ok (empty_doc ver) h.
+Definition init_store (d : doc) : store := Store (d_ver d) (kw_read d) [] None None None [].
